@@ -71,7 +71,7 @@ func checkCrashFile(dir string, content []byte, d *model.Data, uniq string, what
 			return false, err
 		}
 		var idx *updog.Index
-		oerr, hung, slow := fix.Watchdog(30*time.Second, []string{"syscall.Flock+updog.OpenIndex", "bbolt.flock+updog.OpenIndex"}, func() error {
+		oerr, hung, slow := fix.Watchdog(30*time.Second, []string{"syscall.Flock+updog.OpenIndex", "bbolt.flock+updog.OpenIndex", "sync.(*RWMutex)+updog.OpenIndex", "sync.(*Mutex)+updog.OpenIndex", "sync.(*WaitGroup)+updog.OpenIndex"}, func() error {
 			var e error
 			idx, _, e = fix.Open(p, oc)
 			return e
